@@ -6,7 +6,7 @@
    exhaustion on nesting depth, allocator failure and RefCell borrow errors are runtime behaviour
    the model cannot exhibit (the harness exercises 300 nesting levels under catch_unwind). *)
 From RX Require Import Base.Prelude Spec.Repl Model.Engine Model.Matcher Model.Compiler Model.Api
-     Proofs.ReplProof Proofs.SmallFacts.
+     Proofs.ReplProof Proofs.SmallFacts Model.Op Proofs.EngineFacts Proofs.EngineCorollaries.
 
 Theorem C05_expansion_total_partial :
   forall r maxc cap acc,
@@ -25,6 +25,17 @@ Theorem C05_flags_total :
   forall xpath s, match parse_flags xpath s with Ok _ | Err EInvalidFlags => True | _ => False end.
 Proof. exact flags_total. Qed.
 
+(* E2 on the fragment (see C01_fragment_is_match_partial for the fragment): it never happens that
+   a checked operation of the engine returns Panic - YW has no constructor for LPanic / LOut *)
+Theorem C05_engine_fragment_no_panic_partial :
+  forall prog input i s,
+    simple input (p_case prog) (p_multi prog) (p_hasbackrefs prog) (p_maxparens prog) (p_op prog) ->
+    (p_hasbol prog = false /\ p_minlen prog = 0%N /\ p_prefix prog = None /\ p_icc prog = None /\ p_pre prog = []) ->
+    i <= length input -> length (sb s) = length (eb s) ->
+    match matches prog input i s with MTrue _ | MFalse _ => True | MOut | MPanic _ => False end.
+Proof. intros prog input i s H1 H2. exact (fragment_no_panic_no_out prog input H1 H2 i s). Qed.
+
 Print Assumptions C05_expansion_total_partial.
 Print Assumptions C05_replace_errors_classified_partial.
 Print Assumptions C05_flags_total.
+Print Assumptions C05_engine_fragment_no_panic_partial.
